@@ -138,6 +138,15 @@ CLAIMS = {
         "proved in the C04 check. Bounded native run: decode round trip, framing, flat added power per sub-block.",
    note="trusted: pyvc engine; input files follow the writer layout of C04; stage contracts modular; one antenna in the injection contract, taps enumerated; requantiser target statistics bounded only",
    technique="contract-based deductive verification (loop invariant incl. frame condition, modular stage contracts, symbolic file layout); bounded native replay"),
+ 'C11': dict(cat='other', ref='DESIGN.md 2/C11',
+   text="Decided deductively from the real source: noise = chisquare(k) draws of the frame's own generator scaled by x_mean/k (k = 4*round(df*dt), "
+        "proved under C05), the recorded deviation squared = 2*x_mean^2/k, Gaussian / truncated noise = x_mean + x_std*draw (max with the floor), the "
+        "returned array is exactly what was added, the generator advances one draw per pixel, first noise on an empty frame sets the estimates to "
+        "the parameters (else exactly one sigma-clipped re-estimate), table sampling uses table entries / one common index / IndexError on "
+        "unequal lengths, intensity and SNR are mutually inverse and raise without noise, stream deviations add in quadrature incl. the shared "
+        "background. NOT decidable by a contract: that numpy's samplers have the stated moments - an axiom here, probed by a bounded 6-sigma run.",
+   note="level 'other': the headline distributional clause is probabilistic and about a third-party sampler; everything else is discharged",
+   technique="contract-based deductive verification for formulas/bookkeeping (ghost generator stream); bounded statistical run for the distributions"),
 }
 NA_REASON = "not yet built in this session (see DESIGN.md build order)"
 
